@@ -33,6 +33,7 @@ MIN_NONTRIVIAL_FRACTION = 0.1
 RULE += " Added after the seeded rounds: " + 'Additionally a memoised breadth-first exploration of the whole state space of 2 operations x 2 resources (depth 7/8 - the memoised state space of about 19000 states is exhausted before that) and 3 operations x 2 resources with preemption (depth 4/6), and histories in which one operation is blocked on two different owners.'
 RULE += ' Operations may carry metadata watchdog_exempt (a timeout-only exemption); a real cycle that check_deadlock() reports must be handled by watchdog.execute().'
 RULE += ' Round 7: a `decoy` (pbt/props/_decoys.py): a second object of the class, differently configured and put through a misleading script (same prompts / names / ids, opposite verdicts and limits), is built in the same process after the object under test.'
+RULE += " Round 8: `late_strategy` - the watchdog is built with the other victim-selection strategy and the one under test is assigned to its public `deadlock_strategy` attribute."
 REQUIRED_LABELS = {"ref-cycle": 0.01}
 EXHAUSTIVE_NOTE = {"quick": "all acquire-only histories of depth 1..4 over 3 ops x 3 non-preemptable resources (9+81+729+6561 = 7380), complete",
                    "thorough": "all acquire-only histories of depth 1..6 over 3 ops x 3 non-preemptable resources (597870), complete"}
@@ -69,7 +70,9 @@ def _case(draw):
     if draw(st.booleans()):
         hist = hist + [["watchdog"]]
     return {"ops_n": n_ops, "res": res, "prio": list(prio), "strategy": draw(st.sampled_from(["priority", "priority", "oldest"])), "hist": hist,
-            "exempt": draw(st.sampled_from([[], [], [], ["A"], ["B"], ["A", "B", "C"], ["C"]]))}
+            "exempt": draw(st.sampled_from([[], [], [], ["A"], ["B"], ["A", "B", "C"], ["C"]])),
+            # the victim-selection strategy passed to the constructor, or assigned to the public attribute of a watchdog built with the other one
+            "late_strategy": draw(st.sampled_from([False, False, True]))}
 
 
 def strategy(tier):
@@ -213,7 +216,12 @@ def judge(case):
     from operon_ai.coordination.watchdog import ApoptosisReason, Watchdog
     out = Outcome()
     ctrl = CellCycleController()
-    wd = Watchdog(deadlock_strategy=case["strategy"])
+    if case.get("late_strategy"):
+        wd = Watchdog(deadlock_strategy="oldest" if case["strategy"] == "priority" else "priority")
+        wd.deadlock_strategy = case["strategy"]
+        out.label("strategy-assigned-after-construction")
+    else:
+        wd = Watchdog(deadlock_strategy=case["strategy"])
     if case.get("decoy"):
         _decoys.deadlocked_controller(case["decoy"], CellCycleController)     # same operation and resource ids, really deadlocked - elsewhere
         out.label("decoy")
